@@ -329,6 +329,16 @@ func judgeRestore(res *hx.Result, o restoreOut) bool {
 	canon := fmt.Sprintf("%d/%d/%+v", j.hist.Seed, j.hist.NTx, j.mut)
 	res.Case(canon, j.mut.Kind != "none")
 	res.Count("restore/" + j.mut.Kind + "->" + strings.SplitN(o.obs.Res, "(", 2)[0])
+	if j.hist.BadImage != "" {
+		cls := "-"
+		if o.obs.Err != "" {
+			cls = "query-error"
+			if strings.Contains(o.obs.Err, "integrity check failed") {
+				cls = "result-not-ok"
+			}
+		}
+		res.Count(fmt.Sprintf("restore/bad-image(%s) integrity=%d->%s [%s]", j.hist.BadImage, j.mut.Integrity, strings.SplitN(o.obs.Res, "(", 2)[0], cls))
+	}
 	bad := false
 	rc := RestoreCase{Hist: j.hist, Mut: j.mut}
 	if v := restoreOracle(j.mut, o.obs); v != "" {
@@ -381,6 +391,19 @@ func jobsFor(r *hx.Rand, env *replicaEnv, h HistSpec, scratch string, all bool, 
 		jobs = append(jobs, j)
 	}
 	integ := 0
+	if h.BadImage != "" {
+		// the replica encodes (with valid checksums) an image SQLite cannot even query: the integrity
+		// PRAGMA errors; every integrity mode must fail AND leave nothing behind; without the check the
+		// restore must reproduce the image byte for byte.
+		if want == nil || !bytes.Equal(want, env.badImage) {
+			return nil, fmt.Errorf("bad-image replica does not restore to the damaged image")
+		}
+		for _, mode := range []int{1, 2} {
+			add(Mut{Kind: "none", Integrity: mode}, func(j *restoreJob) { j.failStep, j.iok = "integrity", true })
+		}
+		add(Mut{Kind: "none", Integrity: 0}, nil)
+		return jobs, nil
+	}
 	if h.CorruptSrc {
 		// the restored database is rejected by SQLite: every integrity mode must remove the output
 		add(Mut{Kind: "none", Integrity: 1}, nil)
@@ -543,6 +566,9 @@ func histSpecs(r *hx.Rand, tier string) []HistSpec {
 		{Seed: r.Uint64(), NTx: 4, PageSize: 512, CompactAt: 2},
 		{Seed: r.Uint64(), NTx: 3, PageSize: 1024, SnapshotAt: 2},
 		{Seed: r.Uint64(), NTx: 2, PageSize: 512, CorruptSrc: true},
+		{Seed: r.Uint64(), NTx: 2, PageSize: 512, BadImage: "magic"},
+		{Seed: r.Uint64(), NTx: 2, PageSize: 1024, BadImage: "page1hdr"},
+		{Seed: r.Uint64(), NTx: 3, PageSize: 512, BadImage: "schema"},
 	}
 	if tier == "thorough" {
 		hs = append(hs,
